@@ -7,9 +7,17 @@
 (*                                                                             *)
 (* producer: for each item: put (bounded; with Checked the put has a timeout   *)
 (*   and a Full makes the producer look at the workers' exit status);          *)
-(*   close; join_thread (returns when its buffer is flushed); set the flag;    *)
+(*   close; join_thread (returns when its buffer is flushed AND the feeder's    *)
+(*   last write has completed); with JoinChecked the wait for the feeder is     *)
+(*   polled and a dead worker makes the producer raise (par_util.              *)
+(*   finish_checking_workers); set the flag;                                    *)
 (*   join every worker in order; with Checked: raise if a worker died.         *)
-(* feeder thread: Flush moves buffer -> pipe.                                   *)
+(* feeder thread: Flush moves buffer -> pipe.  The OS pipe holds PipeCap        *)
+(*   messages (unit-size items; 64 KiB in reality): the write that overflows it *)
+(*   is visible to readers at once but BLOCKS the feeder (which holds the       *)
+(*   queue's write lock) until receivers have drained the pipe down to PipeCap. *)
+(*   PipeCap = 0: every item is larger than the pipe (images); PipeCap >= Cap:  *)
+(*   the pipe never fills (tile positions).                                     *)
 (* worker: FlagFirst (current tree): sample the flag, then get(timeout):       *)
 (*   reader lock (or time out because another reader holds it), poll the pipe  *)
 (*   (item, or Empty when the pipe is empty); on Empty leave iff the sample    *)
@@ -18,7 +26,7 @@
 (* callback: WCbStart / WCbEnd; an item in Faults makes the callback raise:    *)
 (*   the worker process dies with a non-zero exit status.                      *)
 EXTENDS Naturals, Sequences, FiniteSets, TLC
-CONSTANTS NItems, NW, Cap, FaultSets, Checked, FlagFirst
+CONSTANTS NItems, NW, Cap, FaultSets, Checked, FlagFirst, PipeCap, JoinChecked
 
 Items == 1..NItems
 Workers == 1..NW
@@ -50,8 +58,14 @@ PPutFull == /\ Checked /\ ppc = "put" /\ next <= NItems /\ sem >= Cap
             /\ UNCHANGED <<faults, next, buf, pipe, sem, rlock, pjoin, wpc, witem, wflag, started, processed>>
 PClose == /\ ppc = "put" /\ next > NItems /\ ppc' = "jointhread"
           /\ UNCHANGED <<faults, next, buf, pipe, sem, rlock, doneEv, pjoin, wpc, witem, wflag, started, processed, outcome>>
-PJoinThread == /\ ppc = "jointhread" /\ buf = <<>> /\ ppc' = "setev"
+FeederBlocked == Len(pipe) > PipeCap
+PJoinThread == /\ ppc = "jointhread" /\ buf = <<>> /\ ~FeederBlocked /\ ppc' = "setev"
                /\ UNCHANGED <<faults, next, buf, pipe, sem, rlock, doneEv, pjoin, wpc, witem, wflag, started, processed, outcome>>
+\* the wait for the feeder timed out: check_workers
+PJoinThreadPoll == /\ JoinChecked /\ ppc = "jointhread" /\ (buf # <<>> \/ FeederBlocked)
+                   /\ IF Dead # {} THEN ppc' = "failed" /\ outcome' = "raised" /\ doneEv' = TRUE
+                      ELSE UNCHANGED <<ppc, outcome, doneEv>>
+                   /\ UNCHANGED <<faults, next, buf, pipe, sem, rlock, pjoin, wpc, witem, wflag, started, processed>>
 PSetEv == /\ ppc = "setev" /\ doneEv' = TRUE /\ ppc' = "joinw"
           /\ UNCHANGED <<faults, next, buf, pipe, sem, rlock, pjoin, wpc, witem, wflag, started, processed, outcome>>
 PJoinW == /\ ppc = "joinw" /\ pjoin \in Gone
@@ -60,7 +74,7 @@ PJoinW == /\ ppc = "joinw" /\ pjoin \in Gone
                   /\ IF Checked /\ Dead # {} THEN ppc' = "failed" /\ outcome' = "raised"
                      ELSE ppc' = "returned" /\ outcome' = "returned"
           /\ UNCHANGED <<faults, next, buf, pipe, sem, rlock, doneEv, wpc, witem, wflag, started, processed>>
-Flush == /\ buf # <<>> /\ pipe' = Append(pipe, Head(buf)) /\ buf' = Tail(buf)
+Flush == /\ buf # <<>> /\ ~FeederBlocked /\ pipe' = Append(pipe, Head(buf)) /\ buf' = Tail(buf)
          /\ UNCHANGED <<faults, next, sem, rlock, doneEv, ppc, pjoin, wpc, witem, wflag, started, processed, outcome>>
 
 \* ---- workers
@@ -88,8 +102,8 @@ WCbEnd(w) == /\ wpc[w] = "running" /\ processed' = Append(processed, witem[w])
              /\ UNCHANGED <<faults, next, buf, pipe, sem, rlock, doneEv, ppc, pjoin, wflag, started, outcome>>
 
 WNext(w) == WSample(w) \/ WAcquire(w) \/ WLockTimeout(w) \/ WRecv(w) \/ WPollTimeout(w) \/ WCheckDone(w) \/ WCbStart(w) \/ WCbEnd(w)
-Next == PPut \/ PPutFull \/ PClose \/ PJoinThread \/ PSetEv \/ PJoinW \/ Flush \/ \E w \in Workers : WNext(w)
-Fair == /\ WF_vars(PPut) /\ WF_vars(PPutFull) /\ WF_vars(PClose) /\ WF_vars(PJoinThread) /\ WF_vars(PSetEv)
+Next == PPut \/ PPutFull \/ PClose \/ PJoinThread \/ PJoinThreadPoll \/ PSetEv \/ PJoinW \/ Flush \/ \E w \in Workers : WNext(w)
+Fair == /\ WF_vars(PPut) /\ WF_vars(PPutFull) /\ WF_vars(PClose) /\ WF_vars(PJoinThread) /\ WF_vars(PJoinThreadPoll) /\ WF_vars(PSetEv)
         /\ WF_vars(PJoinW) /\ WF_vars(Flush)
         /\ \A w \in Workers : /\ WF_vars(WSample(w)) /\ WF_vars(WAcquire(w)) /\ WF_vars(WRecv(w)) /\ WF_vars(WPollTimeout(w))
                               /\ WF_vars(WCheckDone(w)) /\ WF_vars(WCbStart(w)) /\ WF_vars(WCbEnd(w))
@@ -104,7 +118,7 @@ ReturnedImpliesAll == outcome = "returned" =>
     /\ \A w \in Workers : wpc[w] = "exited"
     /\ buf = <<>> /\ pipe = <<>> /\ sem = 0
 \* the shutdown handshake: the flag goes up only after the producer's buffer is flushed
-NoLossAtSet == (doneEv /\ outcome # "raised") => buf = <<>> /\ next > NItems
+NoLossAtSet == (doneEv /\ outcome # "raised") => buf = <<>> /\ ~FeederBlocked /\ next > NItems
 \* bounded queue: never more than Cap items in flight
 Bounded == sem <= Cap /\ sem = Len(buf) + Len(pipe)
 \* C19: a raising callback is never swallowed ...
